@@ -423,7 +423,10 @@ fn run_hist(args: &Args) -> i32 {
         }
         // final step on what was published
         let cycles = rs.cycles.clone();
-        if !cycles.is_empty() && some_survivor(&cycles, &ctx.fb) {
+        if !cycles.iter().all(|r| native_valid(r, &ctx.n)) {
+            // outside the domain of final_step; the invalid relation is judged by the add event that published it
+            out.ev(json!({"op": "skip", "case": case, "why": "a published relation is not a valid relation", "nrels": cycles.len()}));
+        } else if !cycles.is_empty() && some_survivor(&cycles, &ctx.fb) {
             final_step_event(&mut out, &case, "hist", &ctx.n, &ctx.fb, &cycles);
         } else {
             out.ev(json!({"op": "skip", "case": case, "why": "no relation survives the singleton filter of final_step (C03 edge)",
@@ -645,6 +648,9 @@ fn run_sieve(args: &Args) -> i32 {
         for (j, (r, sn)) in bad_raws.iter().enumerate() {
             out.ev(json!({"op": "raw", "case": format!("{}/bad{}", case, j), "n": dn(sn), "nd": sn.to_string(), "r": rel_value(r)}));
         }
+        if !bad_raws.is_empty() {
+            continue; // nothing is known about what the store made of invalid inputs
+        }
         // a sample of the inputs
         let mut idx: Vec<usize> = (0..raws.len()).collect();
         idx.shuffle(&mut rng);
@@ -720,8 +726,21 @@ fn run_sieve(args: &Args) -> i32 {
     0
 }
 
+/// Not part of the check: reproduces the excluded corner (no relation survives the singleton filter of
+/// final_step, which then calls kernel_gauss on zero columns).  `ymqv c11 --mode edge --out FILE`
+fn run_edge(args: &Args) -> i32 {
+    let mut out = Out::create(arg_str(args, "out", "trace.ndjson"));
+    let mut rng = rng_for(arg_u64(args, "seed", 1), "c11-edge");
+    let ctx = new_ctx(&mut rng, 64, 2, 24);
+    let r = realise(&mut rng, &ctx, &[ctx.plus[0]], 1);
+    final_step_event(&mut out, "edge-nosurvivor", "edge", &ctx.n, &ctx.fb, &[r]);
+    out.finish();
+    0
+}
+
 pub fn run(args: &Args) -> i32 {
     match arg_str(args, "mode", "hist") {
+        "edge" => run_edge(args),
         "hist" => run_hist(args),
         "pack" => run_pack(args),
         "sieve" => run_sieve(args),
